@@ -87,6 +87,12 @@ class Engine:
             process_representation=self.coupling_process.model.process_representation,
         )
 
+    def _initialisation_seed(self) -> None:
+        """Seed the generators once per run and before any pre-computation: seeding again for every level and pass
+        would restart the same stream of variates for each of them."""
+        if self.configuration.nb_of_processes == 1:
+            self.configuration.initialisation_seed()
+
     def compute_level_l(
         self,
         level: int,
@@ -119,8 +125,7 @@ class Engine:
         nb_of_processes = self.configuration.nb_of_processes
 
         if nb_of_processes == 1:
-            # single process version
-            self.configuration.initialisation_seed()
+            # single process version (the generators are seeded once per run, in `price`)
             for iteration in range(extra_mc_paths):
                 simulated_path = simulation_path()
                 path_manager.set_to_path(simulated_path)
@@ -161,6 +166,7 @@ class Engine:
         :param product: product to price
         :param rmse: root-mean square error
         """
+        self._initialisation_seed()
         self.initialisation(product)
 
         for path_manager in self.path_managers:
@@ -304,6 +310,7 @@ class Engine:
         """
         mc_paths = self.configuration.initial_mc_paths
         max_level = self.configuration.maximum_level
+        self._initialisation_seed()
         self.initialisation(product)
         for path_manager in self.path_managers:
             path_manager.update(
